@@ -35,8 +35,19 @@ impl Monitor for C19 {
                 if w.net == NetID::Mainnet && h.0.to_string() != GRANDFATHERED_FAUCET {
                     viol!("faucet-accepted-on-mainnet", "faucet {} was accepted on mainnet at height {}", h, ob.pre.height);
                 }
+                if n > 1 && h.0.to_string() == GRANDFATHERED_FAUCET {
+                    viol!("grandfathered-faucet-accepted-again", "the grandfathered faucet appears {} times in one accepted batch at height {} on {:?}", n, ob.pre.height, w.net);
+                }
                 if n > 1 {
                     viol!("faucet-accepted-twice-in-one-batch", "faucet {} appears {} times in one accepted batch", h, n);
+                }
+                if h.0.to_string() == GRANDFATHERED_FAUCET && self.accepted.contains_key(&h) {
+                    viol!(
+                        "grandfathered-faucet-accepted-again",
+                        "the grandfathered faucet was accepted again at height {} on {:?} (it leaves no duplicate marker)",
+                        ob.pre.height,
+                        w.net
+                    );
                 }
                 if let Some((h0, b0)) = self.accepted.get(&h) {
                     let point = if *b0 == self.blocks { "same-block-later-batch" } else if self.restarts > 0 { "later-block-after-restart" } else { "later-block" };
@@ -93,6 +104,7 @@ pub fn profile() -> Profile {
     p.max_txs = 5;
     p.max_steps = 18;
     p.p_teleport = 1;
+    p.grandfathered_faucet = true;
     p
 }
 
@@ -102,7 +114,7 @@ pub fn run(ctx: &Ctx) -> (Outcome, String, Option<bool>) {
         p.max_steps = 36;
         p.max_txs = 8;
     }
-    let out = super::hist::run_histories(ctx, "faucet-histories", p, ctx.scale(200, 3000), C19::default);
+    let out = super::hist::run_histories(ctx, "faucet-histories", p, ctx.scale(2000, 20000), C19::default);
     let rule = "Generated histories on all nine network ids (mainnet 22%) in which 30% of transactions are fresh faucets (0-4 outputs, every denomination incl. new tokens, fee 0..2^70, random data) and 36% are re-submissions of a faucet seen earlier in the history - in the same batch, a later batch of the same block, later blocks, after restart from a block, after a jump to a boundary height - interleaved with ordinary traffic and mutations. Oracle: on mainnet no faucet is ever in an accepted batch (the grandfathered hash excepted; its body is unknown, so it cannot be generated); elsewhere every faucet hash is accepted at most once over the whole history. Evidence counts first acceptances so that the check is not vacuous. Non-trivial = a history in which an already accepted faucet was re-submitted (and rejected) at >=1 kind of replay point; distinct by the set of replay-point kinds per case.".to_string();
     (out, rule, None)
 }
